@@ -41,7 +41,7 @@ def run(tier, replay):
     if replay:
         lib.kverif(tokcommon.GROUP, ["keys", "--out", obs, "--db", db, "--replay", replay])
     else:
-        args = ["keys", "--out", obs, "--db", db, "--scenarios", "--random", 4 if quick else 60,
+        args = ["keys", "--out", obs, "--db", db, "--scenarios", "--random", 3 if quick else 60,
                 "--len", 30 if quick else 50, "--seed", lib.seed()]
         if not quick:
             args.append("--rs256")
